@@ -27,7 +27,7 @@ RULE = ("api: every sequence of <=3 (quick) / <=4 (thorough) calls over a 13-cal
         "collecting session / objects built inside the bracket x operand shapes exact, larger, estimated x coordinates up to 11; "
         "program (no Lean model, spec on the implementation's observations): the C06 program generator (tilings, right-nested and "
         "hoisted intersections, Fiber.intersection two-finger / leader-follower / filtered) x format U on any rank of any operand or "
-        "of the output, unowned-fiber operands with their own rank attributes, int / float / bool values, same reuse variants; all "
+        "of the output, unowned-fiber operands with their own rank attributes, int / float / bool / wide-magnitude float values, same reuse variants; all "
         "chunked (spec on observations): Z += A with A in chunks of increasing coordinates populated with start_pos fed from "
         "getSavedPos() (first start_pos 0, or none), pre-populated outputs, depth 1-2, all cut points on a 4-coordinate small scope; all "
         "ref (spec on observations): kernels that fetch the output element with getPayloadRef() instead of populate (mat-vec, "
@@ -531,7 +531,10 @@ def _scale(t, depth, f):
     return [[c, _scale(s, depth - 1, f)] for c, s in t]
 
 
-VALS = {"int": lambda v: v, "float": lambda v: v * 0.5, "bool": lambda v: bool(v)}
+# "wide": floats of very different magnitude (even values scaled by 2**60), so that a small accumulator is absorbed by a
+# large addend (1.0 + 2**61 == 2**61): an add that executes but leaves the sum equal to one operand (seed C15-17)
+VALS = {"int": lambda v: v, "float": lambda v: v * 0.5, "bool": lambda v: bool(v),
+        "wide": lambda v: float(v) * (2.0 ** 60 if v % 2 == 0 else 1.0)}
 
 
 def _mk_program(rng, c6):
@@ -541,7 +544,7 @@ def _mk_program(rng, c6):
     names = [K6.lname(l, tiles) for l in c6["order"]]
     case = {"prop": PROP, "kind": "program", "k6": {k: v for k, v in c6.items() if k != "prop"},
             "ranks": names, "style": c6["style"], "tiled": int(bool(tiles)), "pfx": rng.choice(PFX),
-            "zdecl": rng.random() < 0.65, "vals": rng.choice(["int", "int", "int", "float", "float", "bool"])}
+            "zdecl": rng.random() < 0.65, "vals": rng.choice(["int", "int", "int", "float", "float", "bool", "wide"])}
     u = rng.random()
     case["traces"] = ([] if u < 0.1 else [[v, "iter"] for v in names] if u < 0.4 else
                       [[v, t] for v in names for t in TYPES] if u < 0.55 else
